@@ -170,7 +170,7 @@ func TestVerifReplay(t *testing.T) {
 
 def replay(pid, unit, vio, hdir, rels, idx, work):
     """Native replay of one counterexample. Returns (confirmed, detail, path)."""
-    rdir = os.path.join(VERIF, "replays", pid, "%s-%d" % (unit.replace("@", "_").replace("=", ""), idx))
+    rdir = os.path.join(VERIF, "replays" + os.environ.get("VERIF_WORKTAG", ""), pid, "%s-%d" % (unit.replace("@", "_").replace("=", ""), idx))
     shutil.rmtree(rdir, ignore_errors=True)
     os.makedirs(rdir)
     params = ""
@@ -257,7 +257,7 @@ def main():
     cfg = props.PROPS[pid]
     tcfg = dict(cfg.get("common", {}))
     tcfg.update(cfg[tier])
-    work = os.path.join(VERIF, "work", "%s-%s" % (pid, tier))
+    work = os.path.join(VERIF, "work", "%s-%s%s" % (pid, tier, os.environ.get("VERIF_WORKTAG", "")))
     os.makedirs(work, exist_ok=True)
     hdir, rels = build_harness(pid, tier, cfg, work)
     out = os.path.join(work, "result.json")
